@@ -140,13 +140,15 @@ CLAIMED["C13"] = (
     "Partial, labelled so. Theorems: the directive calls left in the output are exactly those of the untouched segments plus those of the generated texts; none remains when every call lies in a replaced interval and no argument "
     "expression contains one (C13_directive_count, C13_no_directive_left, C13_generated_text_clean; C13_nested_refuted is the model witness of known finding F8); generated imports get one name per path, stable, pairwise distinct, "
     "never a name of the file's own imports, and the mangling loop terminates (C13_import_names, C13_import_loop_terminates); a package reference of a template reaches the file's import unless the closure or the "
-    "enclosing function declares that name (C13_template_reference; C13_shadow_refuted is the model witness of F7). Not theorems: that the output type-checks and that the tool never panics are observed on every run.",
+    "enclosing function declares that name (C13_template_reference; C13_shadow_refuted is the model witness of F7); with the repaired walk a file is either refused (one positioned diagnostic per directive spelled through a dot-import of cff) or "
+    "every directive call of it is replaced, an output being written exactly when it contains a directive (C13_directives_processed_or_refused; C13_dot_import_refuted is the witness of the repaired defect F12, probes DotImport and DotMixed). "
+    "Not theorems: that the output type-checks and that the tool never panics are observed on every run (corpus variants incl. directives in generic functions and in initialisers of package-level variables; every file with directives must have an output).",
     GEN_NOTE + " Known findings F7 (local identifier named like a package the generated code uses) and F8 (nested directive) are reported from named probes.", "DESIGN.md §7 C13")
 CLAIMED["C17"] = (
     "Coq proof that the unordered/random inputs of the generator (map of hoisted expressions, map of new imports, set of taken names, random magic token) cannot influence the text + correspondence: byte comparison of repeated cff processes and of -file selections in base and source-map mode",
     "Partial, labelled so. Theorems: the prologue and the added imports depend only on the set recorded (C17_prologue_order_irrelevant, C17_import_order_irrelevant); the import names and addImports do not depend on the order in which "
     "the file's imports seed the set of taken names (C17_alias_seed_irrelevant); no magic comment survives and the output is the same for every token value not occurring as a user comment (C17_no_magic_left, C17_token_irrelevant). "
-    "Independence from the other files processed is the absence of shared generator state: observed (every file alone vs with its package), not proved.",
+    "Independence from the other files processed and from earlier runs is the absence of shared generator state: observed (every file alone vs with its package; generating in another mode over the outputs an earlier run left behind gives the bytes of a first-ever generation), not proved.",
     GEN_NOTE, "DESIGN.md §7 C17")
 CLAIMED["C20"] = (
     "Coq proof that source-map rendering adds only comments and line directives to base rendering + correspondence: token streams of real base and source-map outputs; differential execution of base-mode and modifier-mode code against each other and the flow semantics model",
